@@ -19,7 +19,7 @@ FN = ['parsePkgLength', 'parseNumConstant', 'parseString', 'parseNameString', 'n
 class C12(flow.Spec):
     prop = 'C12'
     props_files = ['theories/Props/C12.v', 'theories/Props/C12_examples.v', 'theories/Props/C12_reader_trans.v']
-    model_targets = ['theories/Aml/RunC12.vo', 'theories/Aml/ParserProofsTop.vo', 'theories/Aml/ParserTotalTop.vo', 'theories/Aml/ParserTotalCalls.vo', 'theories/Aml/ParserTotalReloc.vo', 'theories/Aml/ParserTotalMerge.vo', 'theories/Aml/ParserTotalResolve.vo']
+    model_targets = ['theories/Aml/RunC12.vo', 'theories/Aml/ParserProofsTop.vo', 'theories/Aml/ParserTotalTop.vo', 'theories/Aml/ParserTotalCalls.vo', 'theories/Aml/ParserTotalReloc.vo', 'theories/Aml/ParserTotalMerge.vo', 'theories/Aml/ParserTotalResolve.vo', 'theories/Aml/ParserTotalDeferW.vo', 'theories/Aml/ParserTotalDeferV.vo']
     pkg = 'device/acpi/aml'
     harness = [os.path.join(H, 'zz_verif_c12_test.go'), os.path.join(H, 'zz_verif_amlcommon_test.go')]
     test = 'TestVerifC12$'
@@ -50,7 +50,7 @@ class C12(flow.Spec):
                'parseFieldElements, parseByteList, scope / pkgEnd stacks; skip mode) it is PROVED for every table image, every pool that '
                'satisfies C13\'s R with a live root, valid opcode-table indexes and room for 4 objects per byte, and every fuel, that the '
                'outcome is never Panic and that the returned pool again satisfies R (built on C13\'s append_R / appendAfter_R / newObject_R); '
-               'NOT proved for parseDeferredBlocks',
+               'for parseDeferredBlocks see the block theorem below',
                'C12_parse_total_partial_fuel_first_pass: under the same hypotheses the first pass run with ParseAML\'s own fuel '
                '(parse_fuel = 64 + 8 * table length) RETURNS (no Panic, no OutOfFuel) - incl. the outer loop of parseObjectList: the scope '
                'stack is never deeper than the pkgEnd stack (table fact: a TermList argument is preceded by a PkgLen argument in the row of '
@@ -65,7 +65,7 @@ class C12(flow.Spec):
                'and keeps - "every pOpIntNamePathOrMethodCall object carries a []byte value", which is not yet derived from the earlier '
                'passes; relocateNamedObjects needs the root at slot 0 to be a ScopeBlock); their fuel is NOT analysed; relocateNamedObjects is chained with '
                'mergeScopeDirectives (_resolve_loop) but not with passes 1-2 (the directive-shape hypothesis is not derived from them); resolveMethodCalls / '
-               'connectNonNamedObjArgs are not chained because parseDeferredBlocks before them is not covered',
+               'connectNonNamedObjArgs are not chained with parseDeferredBlocks before them (its hypotheses are not derived from the earlier passes)',
                'C12_parse_total_partial_nopanic_mergeScopeDirectives: mergeScopeDirectives (Find, scopeOf, moveContents, the three frees, the walk '
                'over the moved objects) never panics from ANY live object of ANY state that satisfies R / valid indexes / slices inside, has a '
                'parentless live ScopeBlock root at slot 0, and in which every Scope directive of the current table has the shape the first pass '
@@ -76,6 +76,21 @@ class C12(flow.Spec):
                'C12_parse_total_partial_nopanic_resolve_loop: the loop of ParseAML that alternates mergeScopeDirectives(0) and relocateNamedObjects(0) '
                'never panics from any state with the hypotheses of the mergeScopeDirectives theorem and re-establishes them (a relocation keeps '
                'the shape of the Scope directives); so passes 3a/3b are chained with each other, NOT yet with passes 1-2 and 4-6',
+               'C12_parse_total_partial_nopanic_deferred_block: the work parseDeferredBlocks does on ONE deferred object (mode := parseModeAllBlocks, '
+               'parseObjectArgs with all nine mutually recursive functions in that mode - in-line term lists, names resolved with Find while '
+               'parsing, the argument count of a called Method read from the Method object, strict term arguments attached and detached, '
+               'popPkgEnd - and the final popping of the pkgEnd stack) never panics from ANY state with R, valid indexes, the reader / whole-parser '
+               'invariant, live scopes, room for 8 objects per table byte, and every Method typed (two leading children without deferred / '
+               'field-list rows, the second a number); R, the invariants and the Method typing hold again, the pool grows by <= 8*len+3.  '
+               'NOT proved: the derivation of the Method typing from the earlier passes; fuel is NOT analysed',
+               'C12_parse_total_partial_nopanic_deferred_walk: the WHOLE of parseDeferredBlocks - the depth-first walk from any live object (first / '
+               'next links, `next` re-read after each child, no descent below a parsed deferred object) that parses every pending deferred object '
+               '(Defer row, handle of the current table) as in the block theorem - never panics and re-establishes R, the invariants and the Method '
+               'typing, provided the pool has room for n blocks (8*len+3 objects each) where the hypothesis dcnt counts the n pending objects the walk '
+               'will meet and demands that none of them has a FieldList argument (pending Buffer / While; a pending BankField, whose parse inserts '
+               'siblings into the list being walked, is EXCLUDED).  Key lemmas: a block changes neither the child list of any object that is not '
+               'itself pending nor any payload field but values; no parser function changes the table handle (partial-correctness judgement hsame, '
+               'ParserTotalDeferH.v).  NOT proved: pending BankFields; dcnt and the Method typing are not derived from the earlier passes; fuel is NOT analysed',
                'the unproved parts of C12_full_parse_total (no Panic / OutOfFuel and R for the later passes, outcome class of load) are covered '
                'by the correspondence of the extracted model (explicit Panic / OutOfFuel outcomes, all passes modelled) with the real parser '
                'and by the harness monitors (outcome class, watchdog, independent link checker, PrettyPrint)',
